@@ -197,7 +197,7 @@ func (p *parser) expr() Expr {
 		p.next()
 		name := p.next().s
 		p.expectOp("=")
-		v := p.expr()
+		v := p.add() // no comparison / 'in' at top level of a let value (parenthesise if needed)
 		if !p.isKw("in") {
 			p.fail("expected 'in'")
 		}
